@@ -6,7 +6,8 @@ driver for the marks model (engine `marks`, C20)
 request (one line, blank separated tokens):
   `run <nshares> init* <nframes> frame* <nticks> tick*`
     init  := `<nfields> (<field> <val>)*`
-    frame := `<name> <nE> write* <nR> write* <nX> write* <nT> trans*`
+    frame := `<name> <nG> guard* <nE> write* <nR> write* <nX> write* <nT> trans*`
+    guard := `<0|1 negated> <share> <field>`          (`let me if [not] field in share`)
     write := `P <share> <nfields> (<field> <val>)*`  (Share.update, stamps)
            | `C <share> <nfields> (<field> <val>)*`  (Share.change, no stamp)
     trans := `<far> <nneeds> need*`         far := `next` | `me` | `=<frame>`
@@ -103,13 +104,21 @@ def trans : P TransSrc := fun ts => do
   let (ns, r) ← many need r
   return (⟨far, ns⟩, r)
 
+def guard : P Guard := fun ts => do
+  let (n, r) ← tok ts
+  let neg ← (match n with | "0" => some false | "1" => some true | _ => none)
+  let (s, r) ← nat r
+  let (f, r) ← tok r
+  return (⟨neg, s, f⟩, r)
+
 def frame : P FrameSrc := fun ts => do
   let (name, r) ← tok ts
+  let (g, r) ← many guard r
   let (e, r) ← many write r
   let (c, r) ← many write r
   let (x, r) ← many write r
   let (t, r) ← many trans r
-  return (⟨name, e, c, x, t⟩, r)
+  return (⟨name, g, e, c, x, t⟩, r)
 
 def tickP : P (List Write × List Write) := fun ts => do
   let (b, r) ← many write ts
@@ -119,6 +128,15 @@ def tickP : P (List Write × List Write) := fun ts => do
 def writeOk (n : Nat) : Write → Bool
   | .put s _ => s < n
   | .chg s _ => s < n
+
+/-- guards read fields that exist from the start, and the first frame has none (a framer whose first
+frame refuses entry never starts; not modelled) -/
+def guardsOk (inits : List Fields) (p : Program) : Bool :=
+  p.all (fun f => f.guards.all (fun g =>
+    match inits[g.share]? with
+    | some d => (d.lookup g.field).isSome
+    | none => false)) &&
+  ((p.head?.map (fun f => f.guards.isEmpty)).getD true)
 
 def progOk (n : Nat) (p : Program) (sched : Schedule) : Bool :=
   p.all (fun f => f.enter.all (writeOk n) && f.recur.all (writeOk n) && f.exit.all (writeOk n) &&
@@ -134,6 +152,7 @@ def runLine (ts : List String) : Option String := do
   let (sched, r) ← many tickP r
   if r ≠ [] then none
   if !progOk inits.length p sched then none
+  if !guardsOk inits p then none
   match resolve p with
   | .error _ => return "ERR build"
   | .ok rs =>
